@@ -11,7 +11,7 @@ TInit == /\ tid \in 1..Len(Traces) /\ l = 1
 \* every logged field of the event is compared with what the spec's action produces
 Matches == /\ last'.e = E.e /\ last'.res = E.res /\ last'.w = E.w /\ last'.reads = E.reads /\ last'.fired = E.fired
            /\ last'.closes = E.closes /\ last'.unreg = E.unreg /\ last'.pstop = E.pstop /\ last'.reg = E.reg
-           /\ last'.logged = E.logged /\ last'.p = E.p
+           /\ last'.logged = E.logged /\ last'.p = E.p /\ last'.seq = E.seq
 Step(A) == l <= Len(T.ev) /\ A /\ Inv' /\ StepOK /\ Matches /\ l' = l + 1 /\ UNCHANGED tid
 TNext == \/ (E.e = "start" /\ Step(Start))
          \/ (E.e = "tick" /\ Step(FbpTick \/ FsTick \/ P2pTick))
